@@ -320,7 +320,7 @@ def c12_ctx(R):
 SCOPE_NODES = ("Function", "CompoundStatement", "ForStatement", "DoStatement", "WhileStatement", "IfStatement")
 
 
-@family("C12.scopes", props=["C12"],
+@family("C12.scopes", props=["C12", "C05"],
         functions=[VN + ".v_Function", VN + ".v_CompoundStatement", VN + ".v_ForStatement", VN + ".v_DoStatement", VN + ".v_WhileStatement",
                    VN + ".v_IfStatement", VN + ".v_VariableDeclaration", VN + ".v_StructureDefinition", VN + ".GetContext"],
         assumptions=["induction on tree height with opaque children; hypothesis: a child subtree either returns or raises CompileException (a redeclaration inside it)"])
@@ -494,7 +494,7 @@ def _c12_programs():
     return out
 
 
-@family("C12.e2e", props=["C12"], functions=["nsl.Compiler::Compiler.Compile", VN, "nsl.passes.ComputeTypes::ComputeTypeVisitor"],
+@family("C12.e2e", props=["C12", "C05"], functions=["nsl.Compiler::Compiler.Compile", VN, "nsl.passes.ComputeTypes::ComputeTypeVisitor"],
         assumptions=["BOUNDED stand-in (never counted as proved): a fixed grid of block structures x declaration positions x names (parameter, global, enclosing, fresh, sibling) compiled end to end"])
 def c12_e2e(R):
     """Bounded end-to-end check: a declaration is rejected exactly when its name is visible; sibling scopes may reuse names; names are invisible after their scope."""
